@@ -285,6 +285,14 @@ def call_view(ex, view, args, kwargs):
     g, which = view.nx_view
     if not args and not kwargs:
         return view
+    if which == "edges" and len(args) == 1 and not kwargs and isinstance(args[0], VNode):
+        # G.edges(n): the edges incident to n (out-edges for a DiGraph), reported as (n, neighbour); a node that is not in the graph
+        # makes networkx raise when the view is measured or iterated
+        L = ex.L
+        n = args[0]
+        ex.require(g.N(n.t), "NetworkXError", "edges(nbunch)")
+        E = g.curE
+        return VSet(lambda a, b: L.And(a == n.t, E(a, b)), arity=2, kind="list", owned=False)
     raise OutOfSubset(f"networkx {which} view called with arguments")
 
 
@@ -595,7 +603,14 @@ def count_cmp(ex, s, op, n):
         if st is not None:
             ar = st.arity
             if ar != 1:
-                raise OutOfSubset("cardinality of a set of tuples")
+                if k > 2:
+                    raise OutOfSubset("cardinality of a set of tuples")
+                # k pairwise different tuples (two tuples differ when some coordinate does)
+                def body(*xs):
+                    ts = [xs[i * ar:(i + 1) * ar] for i in range(k)]
+                    return L.And(*[st.has(*t) for t in ts],
+                                 *[L.Or(*[a != b for a, b in zip(ts[i], ts[j])]) for i in range(k) for j in range(i + 1, k)])
+                return L.exists(k * ar, body)
             return L.exists(k, lambda *xs: L.And(*[st.has(x) for x in xs], *[xs[i] != xs[j] for i in range(k) for j in range(i + 1, k)]))
         # family: k pairwise different member sets
         fam = s
